@@ -203,7 +203,7 @@ def run_batch(open_exe, pairs, perturb=False):
     env = dict(os.environ)
     if perturb:
         env["MALLOC_PERTURB_"] = "165"
-    p = subprocess.run([open_exe, "--batch"], input="".join("%s %s\n" % (a, b) for a, b in pairs), capture_output=True,
+    p = subprocess.run([open_exe, "--batch"], input="".join(" ".join(str(x) for x in pr) + "\n" for pr in pairs), capture_output=True,
                        text=True, env=env, timeout=3000)
     out, cur = [], []
     for l in p.stdout.splitlines():
@@ -533,11 +533,16 @@ def _run(c, d, rebound, drv, open_exe, app_exe, W):
                     else:
                         c.violation("died:" + cls, "opening a crash image (append %d cut at byte %d of %d) kills the client (status %s)" % (j, k, len(data), view[1]), rep)
                 elif view[0] in ("null", "error"):
-                    if view[0] == "error" and not v[2]:
-                        pass    # current C API: non-NULL handle with inf==NULL; (un)initialised members are probed by free under MALLOC_PERTURB_
+                    dims["c_entry:create_from_file"] = dims.get("c_entry:create_from_file", 0) + 1
+                    if view[0] == "error" and v[2]:
+                        # contract of reb_simulationarchive_create_from_file (since the F2 repair): no snapshot could be
+                        # read -> NULL.  A non-NULL handle with inf == NULL, nblobs = 0 and NULL arrays is not an archive
+                        c.violation("c-api:empty-handle-returned", "reb_simulationarchive_create_from_file returns a non-NULL empty handle (inf == NULL) for a first "
+                                    "snapshot cut at byte %d of %d instead of NULL" % (k, len(data)), rep)
                     if want_n > 0 or data_complete and False:
                         c.violation("lost:" + cls, "crash image (append %d cut %d of %d) cannot be opened although %d snapshots were complete" % (j, k, len(data), want_n), rep)
                 else:
+                    dims["c_entry:create_from_file"] = dims.get("c_entry:create_from_file", 0) + 1
                     _, nb, offs, ts, loads, same = view
                     if want_n == 0 and not data_complete:
                         c.violation("phantom:" + cls, "a first snapshot cut at byte %d of %d is opened as %d snapshot(s)" % (k, len(data), nb), rep)
@@ -552,13 +557,45 @@ def _run(c, d, rebound, drv, open_exe, app_exe, W):
                         mwant = "abort"     # C API: handle with uninitialised members is freed by the client (F2, C side)
                     ok = mwant is not None
                 elif view[0] in ("null", "error"):
-                    ok = mvk.startswith("old") or mvk.startswith("seek")
+                    # the model's client view for the repaired source is NULL on every error exit
+                    ok = (mvk.startswith("old") or mvk.startswith("seek")) and not (view[0] == "error" and v[2])
                 else:
                     ok = mvk.startswith("ok:%d:" % view[1]) and mvk.split(":")[3] == (str(view[2][-1]) if view[2] else "-")
                 if ok:
                     st["model_equal"] += 1
                 else:
                     c.corr_break("model verdict %s differs from the real C reader %s (append %d cut %d of %d)" % (mvk, view[:2], j, k, len(data)), rep)
+            # every other public C entry point on a sample of the boundary cuts
+            samp = sorted(bset)[:: (2 if c.thorough else 5)]
+            trip = [(os.path.join(wd, "i%d.bin" % k), "-", mode) for k in samp for mode in (1, 2, 3)]
+            eres = run_batch(open_exe, trip, perturb=True)
+            vmap = {k: view_of(r) for k, r in zip(ks, res)}
+            for (ipath, _, mode), er in zip(trip, eres):
+                k = int(os.path.basename(ipath)[1:-4])
+                full = (k == len(data))
+                want_n = (0 if fresh else j) + (1 if full else 0)
+                dc = fresh and k >= len(data) - 12
+                expect = max(want_n, 1 if dc else 0)
+                name = {1: "with_messages", 2: "init_from_buffer", 3: "simulation_create_from_file"}[mode]
+                dims["c_entry:" + name] = dims.get("c_entry:" + name, 0) + 1
+                c.count(("c-entry", name, "first" if fresh else "append"))
+                rep = dict(history=hist, append=j, cut=k, of=len(data), entry=name, result=er)
+                if er["status"] != 0 or not er["lines"]:
+                    c.violation("c-entry-died:" + name, "%s on a crash image (append %d cut %d of %d) kills the client (status %s)" % (name, j, k, len(data), er["status"]), rep)
+                    continue
+                l0 = er["lines"][0]
+                if mode == 3:
+                    got_ok = "sim=ok" in l0
+                    if got_ok != (expect > 0):
+                        c.violation("c-entry:" + name, "%s returns %s on a crash image with %d complete snapshots (append %d cut %d)" % (name, l0, expect, j, k), rep)
+                    elif got_ok and vmap[k][0] == "ok" and vmap[k][3] and l0.split("t=")[1] != vmap[k][3][-1]:
+                        c.violation("c-entry:" + name, "%s loads t=%s, the last exposed snapshot has t=%s" % (name, l0.split("t=")[1], vmap[k][3][-1]), rep)
+                else:
+                    mm = re.match(r"entry \d warnings=(-?\d+) nblobs=(-?\d+) inf=(\d)", l0)
+                    nb = int(mm.group(2)) if mm else -1
+                    loads_ok = all(x.endswith("ok") for x in er["lines"][1:] if x.startswith("load"))
+                    if nb != expect or not loads_ok:
+                        c.violation("c-entry:" + name, "%s exposes %d snapshots (%s) on a crash image with %d complete ones (append %d cut %d)" % (name, nb, l0, expect, j, k), rep)
             # Python class on the boundary classes (sample)
             for k in sorted(bset)[:: (1 if c.thorough else 3)]:
                 ip = os.path.join(wd, "i%d.bin" % k)
@@ -594,6 +631,14 @@ def _run(c, d, rebound, drv, open_exe, app_exe, W):
         if hist["init"]["integrator"] in RESTARTABLE and all(o[0] in ("snap", "steps", "set", "edit", "hash", "lrescale", "integrator", "nop") for o in hist["ops"]) and n >= 3:
             restart_case(c, rebound, drv, open_exe, V, v, hist, wd, n, rng, st)
         shutil.rmtree(wd, ignore_errors=True)
+    # ------------------------------------------------------------------ complete chain + residual tail longer than a snapshot
+    for irt in range(12 if c.thorough else 4):
+        rr = ac.residual_tail_case(c, rebound, run_driver, drv, V, os.path.join(W, "rtail%d" % irt), c.rng.fork(), irt + 4 * irt)
+        if rr:
+            dims["restart:residual_tail:" + rr["kind"]] = dims.get("restart:residual_tail:" + rr["kind"], 0) + 1
+            st["residual_tail_model_appends_equal"] = st.get("residual_tail_model_appends_equal", 0) + rr["model_appends_equal"]
+    # ------------------------------------------------------------------ more than 1024 completed snapshots before the crash
+    big_cut_case(c, rebound, open_exe, drv, V, os.path.join(W, "bigcut"), st, dims, 2100 if c.thorough else 1040)
     # ------------------------------------------------------------------ the contrived fake-trailer image (once per run)
     fake_trailer_case(c, rebound, drv, V, os.path.join(W, "fake"), st)
     # ------------------------------------------------------------------ automatic cadence: crash + restart
@@ -612,7 +657,10 @@ def _run(c, d, rebound, drv, open_exe, app_exe, W):
                 "cut:append:delta", "cut:append:END", "cut:append:new-trailer", "cut:append:complete", "cut:first_delta_append", "cut:later_append",
                 "reader:C_API", "reader:Python_class", "restart:manual_history", "restart:chain", "restart:auto_interval", "restart:auto_step",
                 "restart:auto_backward", "restart:observed_write_order_first_append", "restart:observed_write_order_later_append",
-                "tie:strace_write_pattern", "nofake_trailer_evaluated", "fake_trailer_replayed", "archive:array_vanishes"]
+                "tie:strace_write_pattern", "nofake_trailer_evaluated", "fake_trailer_replayed", "archive:array_vanishes",
+                "restart:residual_tail:zeros_link_kept", "restart:residual_tail:zeros_link_cleared", "restart:residual_tail:garbage",
+                "restart:residual_tail:zeros_long", "scale:archive>1024_cut", "c_entry:create_from_file", "c_entry:with_messages",
+                "c_entry:init_from_buffer", "c_entry:simulation_create_from_file"]
     missing = [d_ for d_ in required if not dims.get(d_)]
     c.cov["dimensions_missing"] = missing
     if missing:
@@ -718,6 +766,71 @@ def restart_case(c, rebound, drv, open_exe, V, v, hist, wd, n, rng, st):
             st["restart_bytes_equal"] += 1
         else:
             c.corr_break("model append on a crash image differs from the file the real restart wrote (%s)" % o[:80], rep)
+
+
+def big_cut_case(c, rebound, open_exe, drv, V, wd, st, dims, nsnap):
+    """scale: more than 1024 COMPLETED snapshots before the crash (the reader's index arrays start with 1024 slots):
+    the image must expose exactly the completed snapshots, counted independently by the re-parser"""
+    os.makedirs(wd, exist_ok=True)
+    fn = os.path.join(wd, "big.bin")
+
+    def child():
+        import warnings
+        warnings.filterwarnings("ignore")
+        sim = rebound.Simulation()
+        sim.add(m=1.0); sim.add(m=0.0, x=1.0, vy=1.0)
+        sim.integrator = "leapfrog"
+        sim.dt = 0.01
+        sim.save_to_file(fn, step=1)
+        sim.integrate(sim.dt * (nsnap - 1.5), exact_finish_time=0)
+    if ac.fork_run(child, timeout=120) != 0 or not os.path.exists(fn):
+        st["hazards"] += 1
+        return
+    b = open(fn, "rb").read()
+    blobs = ac.parse_archive(b)
+    if len(blobs) < 1030:
+        c.violation("big-cut:written", "only %d blobs after %d automatic snapshots" % (len(blobs), nsnap), dict(nsnap=nsnap))
+        return
+    cuts = []
+    for bi in (len(blobs) - 1, 1026):
+        bl = blobs[bi]
+        L = bl["end"] - bl["off"]
+        for rel in (0, 5, 17, L // 2, L - 28, L - 13, L - 12, L - 5, L - 1):
+            cuts.append((bi, bl["off"] + rel))
+    pairs, metas = [], []
+    for bi, cut in cuts:
+        ip = os.path.join(wd, "c%d.bin" % cut)
+        open(ip, "wb").write(b[:cut])
+        pairs.append((ip, "-"))
+        metas.append((bi, cut, ip))
+    res = run_batch(open_exe, pairs, perturb=True)
+    mo = run_driver(drv, ["open %s %s" % (V, ip) for _, _, ip in metas])
+    for (bi, cut, ip), r, m in zip(metas, res, mo):
+        completed = len(ac.parse_archive(b[:cut]))       # independent count: blobs that parse and chain
+        # the cut blob itself is incomplete by construction; the one before it ends with a patched trailer
+        vw = view_of(r)
+        dims["scale:archive>1024_cut"] = dims.get("scale:archive>1024_cut", 0) + 1
+        c.count(("big-cut", bi, cut - blobs[bi]["off"]))
+        rep = dict(snapshots_in_file=len(blobs), cut_in_blob=bi, cut_offset=cut, completed=completed, c_reader=r["lines"][:1], status=r["status"], model=m[:40])
+        if vw[0] != "ok" or vw[1] != completed:
+            c.violation("big-cut:count", "archive with %d snapshots cut inside snapshot %d: the reader exposes %s, %d snapshots were complete" % (
+                len(blobs), bi, vw[1] if vw[0] == "ok" else vw, completed), rep)
+        if not m.startswith("ok %d " % completed):
+            c.corr_break("model index of a %d-snapshot crash image exposes %s, completed %d" % (len(blobs), m[:20], completed), rep)
+        elif vw[0] == "ok" and vw[1] == completed:
+            st["model_equal"] += 1
+    # Python class on two of them
+    for bi, cut, ip in metas[:2]:
+        out = os.path.join(wd, "py.json")
+        if os.path.exists(out):
+            os.remove(out)
+        rc = ac.fork_run(py_open, rebound, ip, None, out)
+        pr = json.load(open(out)) if rc == 0 and os.path.exists(out) else {}
+        completed = len(ac.parse_archive(b[:cut]))
+        if pr.get("nblobs") != completed:
+            c.violation("big-cut:py-count", "Python: archive with %d snapshots cut inside snapshot %d exposes %s, %d were complete" % (len(blobs), bi, pr.get("nblobs"), completed),
+                        dict(cut=cut, rc=rc, result=pr))
+    shutil.rmtree(wd, ignore_errors=True)
 
 
 K_FAKE = "LIMIT:fake-trailer-defeats-repair-test"
